@@ -1306,9 +1306,9 @@ def check(run: lib.Run, audit: dict) -> int:
     run.rule = ("exhaustive: every history of length ≤3 (quick) / ≤4 (thorough) over the event alphabet {write new valid doc, "
                 "write invalid doc, delete, check, forced check, check with a change between etag() and load(), short advance, "
                 "long advance, kind-specific fault (etag() raises / touch / HTTP error status / S3 HEAD failing), two overlapping checks, "
-                "and for custom/S3/file kinds an 11th event: one-shot load() failure / same-signature file write} "
+                "and for custom/S3/file/HTTP kinds an 11th event: one-shot load() failure / same-signature file write} "
                 "× initial_load on/off for the scripted custom source, the next length with a deterministic stride; the other 11 source "
-                "kinds (async custom, None/non-str tag, file ± mtime tag, HTTP ± server ETags, S3 etag / version_id / checksum×2) "
+                "kinds (async custom, None/non-str tag, file ± mtime tag, file behind a symbolic link re-pointed on every write, HTTP ± server ETags (HTTP status and transport faults), S3 etag / version_id / checksum×2) "
                 "exhaustive to length 2 (quick) / 3 (thorough) and strided above; every order of the source calls of two overlapping "
                 "checks × forced flags × a source change at every position × 3 contexts; seeded random histories of length ≤40 over "
                 "the extended alphabet (all exception classes, async checks, same-signature file writes, S3 flags). Every history ends "
